@@ -415,6 +415,9 @@ void libxmp_load_epilogue(struct context_data *ctx)
 	p->filter = 0;
 	p->mode = XMP_MODE_AUTO;
 	p->flags = p->player_flags;
+	/* The sequence played last belongs to the previous module:
+	 * xmp_get_frame_info indexes the new scan data with it. */
+	p->sequence = 0;
 #ifndef LIBXMP_CORE_PLAYER
 	module_quirks(ctx);
 #endif
